@@ -13,6 +13,7 @@ import (
 	"sync"
 	"sync/atomic"
 	"testing/iotest"
+	"time"
 )
 
 const (
@@ -25,8 +26,51 @@ const (
 	delivCloseFails    = 6 // reads succeed, Close returns an error
 	delivNoBody        = 7 // http.NoBody when the body is empty (else as delivUnknownLength)
 	delivRealTransport = 8 // through net/http's transport from an httptest.Server, chunked
-	nDeliv             = 9
+	nDeliv             = 9 // forms 0..8 leave the outcome to the bytes alone
+
+	// Bodies that never end: the bytes, then a reader that blocks for ever / that trickles one
+	// blank at a time for ever.  They are only scripted where the code has no reason to read
+	// past the bytes (see gen.go 6f): there the call must return within the watchdog's patience.
+	delivThenBlocks   = 9
+	delivThenTrickles = 10
 )
+
+// endless delivers the bytes and then never reports EOF.
+type endless struct {
+	r       *strings.Reader
+	trickle bool
+	n       int
+	closed  chan struct{}
+	once    sync.Once
+}
+
+func (e *endless) Read(p []byte) (int, error) {
+	if e.r.Len() > 0 {
+		return e.r.Read(p)
+	}
+	if len(p) == 0 {
+		return 0, nil
+	}
+	if e.trickle {
+		select {
+		case <-e.closed:
+			return 0, errors.New("read on closed body")
+		default:
+		}
+		if e.n++; e.n%4096 == 0 {
+			time.Sleep(time.Millisecond) // a reader that drains for ever should not burn a core
+		}
+		p[0] = ' '
+		return 1, nil
+	}
+	<-e.closed
+	return 0, errors.New("read on closed body")
+}
+
+func (e *endless) Close() error {
+	e.once.Do(func() { close(e.closed) })
+	return nil
+}
 
 type closeFails struct{ io.Reader }
 
@@ -48,6 +92,8 @@ func deliver(body string, deliv int) (io.ReadCloser, int64) {
 		return io.NopCloser(iotest.OneByteReader(r)), n
 	case delivCloseFails:
 		return closeFails{r}, n
+	case delivThenBlocks, delivThenTrickles:
+		return &endless{r: r, trickle: deliv == delivThenTrickles, closed: make(chan struct{})}, -1
 	case delivNoBody:
 		if body == "" {
 			return http.NoBody, 0
